@@ -1,6 +1,58 @@
-//! scenarios for the task-model / working-set / storage properties (filled in per property)
+//! scenarios for the task-model / working-set / storage properties
 use serde_json::{json, Value};
+use taskchampion::storage::inmemory::InMemoryStorage;
+use taskchampion::{Operation, Operations, Replica};
+
+use crate::sync_scn::ts_of;
+use crate::{block_on, num_of, uuid_of};
 
 pub fn run(scn: &Value) -> Value {
-    json!({"error": "model scenario not implemented", "scenario": scn})
+    match scn["what"].as_str().unwrap_or("") {
+        "expire" => expire(scn),
+        other => json!({"error": format!("unknown model scenario {other}")}),
+    }
+}
+
+/// tasks with given status / modified strings, then Replica::expire_tasks with the real clock
+fn expire(scn: &Value) -> Value {
+    let mut rep = Replica::new(InMemoryStorage::new());
+    let mut ops = Operations::new();
+    let mut ids = Vec::new();
+    for t in scn["tasks"].as_array().cloned().unwrap_or_default() {
+        let un = t["uuid"].as_u64().unwrap();
+        let uuid = uuid_of(un);
+        ids.push(un);
+        ops.push(Operation::Create { uuid });
+        for key in ["status", "modified"] {
+            if let Some(v) = t[key].as_str() {
+                ops.push(Operation::Update {
+                    uuid,
+                    property: key.to_string(),
+                    old_value: None,
+                    value: Some(v.to_string()),
+                    timestamp: ts_of(&json!(0)),
+                });
+            }
+        }
+        ops.push(Operation::Update {
+            uuid,
+            property: "description".into(),
+            old_value: None,
+            value: Some("x".into()),
+            timestamp: ts_of(&json!(0)),
+        });
+    }
+    block_on(rep.commit_operations(ops)).expect("commit");
+    let n0 = block_on(rep.num_local_operations()).unwrap();
+    let res = block_on(rep.expire_tasks());
+    let n1 = block_on(rep.num_local_operations()).unwrap();
+    let left: Vec<u64> = block_on(rep.all_task_uuids())
+        .unwrap()
+        .into_iter()
+        .map(|u| num_of(u) as u64)
+        .collect();
+    let mut purged: Vec<u64> = ids.into_iter().filter(|u| !left.contains(u)).collect();
+    purged.sort();
+    json!({"ok": res.is_ok(), "err": res.err().map(|e| e.to_string()), "purged": purged, "ops_recorded": n1 - n0,
+           "real_now": taskchampion::chrono::Utc::now().timestamp()})
 }
